@@ -10,6 +10,8 @@
 
 #[path = "../../../engines/h_mem/src/sweep.rs"]
 mod sweep;
+#[path = "../../../engines/h_mem/src/place.rs"]
+mod place;
 use sweep::*;
 
 extern "C" {
@@ -67,6 +69,13 @@ fn progress(f: u8, n: usize) {
     out(w.bytes());
 }
 
+static mut VIA_TAG: &str = "";
+fn progress_tag(f: u8, n: usize) {
+    let mut w = W::new();
+    w.s("@@P ").s(unsafe { VIA_TAG }).s(" ").s(FN_NAMES[f as usize]).s(" ").u(n as u64).s("\n");
+    out(w.bytes());
+}
+
 fn summary(ctx: &Ctx, tag: &str) {
     // closes the last call window: from here on no call of the functions under test
     let mut w = W::new();
@@ -109,6 +118,97 @@ fn summary(ctx: &Ctx, tag: &str) {
     }
 }
 
+// ---- placement cross product (place.rs): two regions with inaccessible pages on both sides
+unsafe fn region() -> Option<*mut u8> {
+    use core::num::NonZeroUsize;
+    use rusl::platform::{MapAdditionalFlags, MapRequiredFlag, MemoryProtection};
+    // reserve DATA + 2 pages inaccessible, then make the middle read-write
+    let whole = rusl::unistd::mmap(
+        None,
+        NonZeroUsize::new(place::DATA + 2 * place::PAGE)?,
+        MemoryProtection::PROT_NONE,
+        MapRequiredFlag::MapPrivate,
+        MapAdditionalFlags::MAP_ANONYMOUS,
+        None,
+        0,
+    )
+    .ok()?;
+    let mid = rusl::unistd::mmap(
+        Some(whole + place::PAGE),
+        NonZeroUsize::new(place::DATA)?,
+        MemoryProtection::PROT_READ | MemoryProtection::PROT_WRITE,
+        MapRequiredFlag::MapPrivate,
+        MapAdditionalFlags::MAP_ANONYMOUS | MapAdditionalFlags::MAP_FIXED,
+        None,
+        0,
+    )
+    .ok()?;
+    if mid != whole + place::PAGE {
+        return None;
+    }
+    Some(mid as *mut u8)
+}
+
+/// SIGSEGV inside a call of a function under test: name function, operand and side, then leave
+unsafe extern "C" fn on_segv(sig: i32, info: *mut rusl::process::SigInfo, uctx: *const core::ffi::c_void) {
+    // x86_64: si_addr at offset 16 of siginfo, gregs[REG_ERR] at 40 + 19*8 of ucontext
+    let addr = info.cast::<u8>().add(16).cast::<usize>().read_unaligned();
+    let err = uctx.cast::<u8>().add(40 + 19 * 8).cast::<u64>().read_unaligned();
+    let mut w = W::new();
+    let attributable = place::fault_line(addr, err & 2 != 0, sig, VIA, &mut w);
+    out(w.bytes());
+    if attributable {
+        out(b"@@DONE\n");
+        rusl::process::exit(1);
+    }
+    rusl::process::exit(70)
+}
+
+fn placement_summary(ctx: &place::PCtx, tag: &str) {
+    let mut w = W::new();
+    w.s("@@P ").s(tag).s(" end 0\n");
+    out(w.bytes());
+    let mut total = 0;
+    for i in 0..5 {
+        total += ctx.cases[i];
+        let mut w = W::new();
+        w.s("@@COUNT cases_").s(FN_NAMES[i]).s(" ").u(ctx.cases[i]).s("\n");
+        out(w.bytes());
+        for k in 0..5 {
+            if ctx.per_kind[i][k] > 0 {
+                let mut w = W::new();
+                w.s("@@COUNT violating_cases[C08/").s(FN_NAMES[i]).s("/").s(KIND_NAMES[k]).s("] ");
+                w.u(u64::from(ctx.per_kind[i][k])).s("\n");
+                out(w.bytes());
+            }
+        }
+    }
+    let mut w = W::new();
+    w.s("@@EVAL ").u(total).s("\n@@COUNT cases_L2_placement-").s(tag).s(" ").u(total).s("\n");
+    w.s("@@COUNT placement_pairs_covered_max1024_L2_").s(tag).s(" ").u(ctx.pair_count() as u64).s("\n");
+    out(w.bytes());
+    // coarse cells for the probe: function x operand-1 class x operand-2 class
+    let mut seen = [false; 45];
+    for id in 0..place::N_PCELL {
+        if ctx.cells[id] != 0 {
+            let k = id / 30;
+            if !seen[k] {
+                seen[k] = true;
+                let mut w = W::new();
+                w.s("@@DISTINCT L2/placement-").s(tag).s("/");
+                let f = k / 9;
+                let names = if f >= 3 { ["s1", "s2"] } else { ["dst", "src"] };
+                w.s(FN_NAMES[f]).s("/").s(names[0]).s("-").s(place::PL_CLASS_NAMES[(k / 3) % 3]);
+                if f != 2 {
+                    w.s("/").s(names[1]).s("-").s(place::PL_CLASS_NAMES[k % 3]);
+                }
+                w.s("\n");
+                out(w.bytes());
+            }
+        }
+    }
+}
+
 #[no_mangle]
 pub fn main() -> i32 {
     // the ordinary print path of a no-libc program (formats through core::fmt, copies included)
@@ -145,6 +245,55 @@ pub fn main() -> i32 {
         unsafe { ctx.sweep_small(&b, 0, 1, progress) };
         summary(&ctx, "core-ptr");
         bad += ctx.viols;
+    }
+    // ---- placement cross product on the linked symbols, both routes
+    let regions = unsafe { (region(), region()) };
+    let handler = unsafe {
+        rusl::process::add_signal_action(rusl::process::CatchSignal::Segv, rusl::process::SaSignalaction::SigAction(on_segv))
+    };
+    if let ((Some(ra), Some(rb)), Ok(())) = (regions, handler) {
+        for route in 0..2 {
+            let (ops, via, tag, check_ret) = if route == 0 {
+                (
+                    Ops {
+                        memcpy: core::hint::black_box(memcpy as Cpy),
+                        memmove: core::hint::black_box(memmove as Cpy),
+                        memset: core::hint::black_box(memset as Set),
+                        memcmp: core::hint::black_box(memcmp as Cmp),
+                        bcmp: core::hint::black_box(bcmp as Cmp),
+                    },
+                    "extern C call of the linked symbol",
+                    "px-extern-C",
+                    true,
+                )
+            } else {
+                (
+                    Ops {
+                        memcpy: core::hint::black_box(p_memcpy as Cpy),
+                        memmove: core::hint::black_box(p_memmove as Cpy),
+                        memset: core::hint::black_box(p_memset as Set),
+                        memcmp: core::hint::black_box(p_memcmp as Cmp),
+                        bcmp: core::hint::black_box(p_bcmp as Cmp),
+                    },
+                    "core::ptr::copy*/write_bytes/slice compare",
+                    "px-core-ptr",
+                    false,
+                )
+            };
+            unsafe { VIA = via };
+            let mut ctx = place::PCtx::new(ops, out, via, ra, rb, 0x5EED_0000 + route);
+            ctx.check_ret = check_ret;
+            unsafe {
+                VIA_TAG = tag;
+                ctx.init();
+                ctx.sweep_exhaustive(0, 1, progress_tag);
+                ctx.sweep_sampled(120, 1, progress_tag);
+            }
+            placement_summary(&ctx, tag);
+            bad += ctx.viols;
+        }
+    } else {
+        out(b"@@INCONCLUSIVE mem_probe: could not map the guarded regions or install the SIGSEGV handler\n");
     }
     out(b"@@DONE\n");
     i32::from(bad != 0)
